@@ -600,7 +600,8 @@ func (x *c15x) stickyDropped(cf c15StickyCfg, f *core.Func, fl *core.Flow) (nGua
 				}},
 				{Edge: func(c2 ast.Expr, ci *core.CondInfo, taken bool) bool {
 					// v == io.EOF: end of stream, not an error state
-					return taken && eqTest(fl, c2, isV, func(e ast.Expr) bool { return fl.Obj(e) == x.ioEOF }, true)
+					isEOF := func(e ast.Expr) bool { return fl.Obj(e) == x.ioEOF }
+					return (taken && eqTest(fl, c2, isV, isEOF, true)) || (!taken && eqTest(fl, c2, isV, isEOF, false))
 				}},
 			},
 		})
